@@ -2,7 +2,11 @@
 import wallet_checks
 from wallet_common import *
 
-MANIFEST_ENTRY = None   # set below when the check is registered
+MANIFEST_ENTRY = dict(
+    cat="model_checking", ref='DESIGN.md 4 C15', engine="wallet-tla",
+    text='TLC explores output-creating histories over two accounts (receive, change, coinbase to the wallet, invoice in thorough, account switching, sends from a named account while another is active) and checks that no key is ever handed to a new output twice (history variable `issued`); the behaviours run on real wallets and TLC checks PathsUnique on every observed new record. Crash points and restores are covered by C06 / C16.',
+    technique="TLC model checking of spec/MCWallet.tla + TLC-generated behaviours replayed on the real code + TLC trace validation (spec/TraceWallet.tla)",
+    note=WALLET_NOTE)
 
 PARAMS = dict(quick_cfgs=['MC_C15_quick.cfg'], thorough_cfgs=['MC_C15.cfg'], quick_n=60, thorough_n=500,
               setup=STD_SETUP, assumptions=WALLET_ASSUME, extra_behaviours=[])
